@@ -178,7 +178,9 @@ def rand_case(rng, nested=False):
     kw = rng.choice([[], [["lang", {"t": "str", "s": "en"}]], [["lang", {"t": "str", "s": "en"}], ["data_x", {"t": "true"}]],
                      [["class_", {"t": "str", "s": "doc"}], ["gone", {"t": "none"}]],
                      [["class_", {"t": "str", "s": "a"}], ["class", {"t": "str", "s": "b"}]],
-                     [["title", {"t": "str", "s": "tip"}]], [["id", {"t": "str", "s": "root"}], ["title", {"t": "str", "s": "T & t"}], ["hidden", {"t": "true"}]],
+                     [["title", {"t": "str", "s": "tip"}]],
+                     # values that are falsy but mean "set": an empty value, zero
+                     [["hidden", {"t": "str", "s": ""}]], [["data_n", {"t": "num", "v": 0}], ["data_f", {"t": "num", "v": 0.0}]], [["hidden", {"t": "true"}], ["data_e", {"t": "str", "s": ""}]], [["id", {"t": "str", "s": "root"}], ["title", {"t": "str", "s": "T & t"}], ["hidden", {"t": "true"}]],
                      [["style", {"t": "str", "s": "margin:0;"}], ["dir", {"t": "str", "s": "rtl"}], ["name", {"t": "str", "s": "n"}], ["content", {"t": "str", "s": "c"}]], [["data_x", {"t": "str", "s": "1"}], ["data-x", {"t": "str", "s": "2"}], ["lang", {"t": "str", "s": "de"}]]])
     n_late = rng.choice([0, 0, 1, 2, 3]) if shape in ("fragment", "list") else 0
     if shape == "head_and_body" and rng.random() < 0.5:
@@ -363,6 +365,33 @@ def check_case(ctx, case):
     return True
 
 
+def check_saved_then_rendered(ctx, rng, scratch_dir):
+    """save_html() with another library directory, then render() with the argument left out: the documented default applies, as
+    for a document that was never saved."""
+    import os
+
+    src = os.path.join(scratch_dir, "src%d" % ctx.counters["oracle.saved_then_rendered"])
+    os.makedirs(src)
+    with open(os.path.join(src, "f.js"), "w") as fh:
+        fh.write("/* f */")
+    mk = lambda: ht.HTMLDocument(ht.div("doc", ht.HTMLDependency("filedep", "1.2", source={"subdir": src}, script={"src": "f.js"}),     # noqa: E731
+                                        ht.HTMLDependency("urldep", "2.0", source={"href": "https://cdn.example/u"}, stylesheet={"href": "u.css"})), lang="en")
+    doc, fresh = mk(), mk()
+    libdir = rng.choice(["assets", "../assets", None, "a/b"])
+    iv = rng.random() < 0.5
+    ctx.count("oracle.saved_then_rendered")
+    page_dir = os.path.join(scratch_dir, "site%d" % ctx.counters["oracle.saved_then_rendered"], "pages")
+    os.makedirs(page_dir)
+    doc.save_html(os.path.join(page_dir, "index.html"), libdir=libdir, include_version=iv)
+    for label, a, b in (("render()", doc.render(), fresh.render()), ("render(include_version=False)", doc.render(include_version=False), fresh.render(include_version=False)),
+                        ("render(lib_prefix=None)", doc.render(lib_prefix=None), fresh.render(lib_prefix=None))):
+        if a["html"] != b["html"]:
+            ctx.violation("render-remembers-save", "after save_html(libdir=%r) %s differs from the same call on a document that was never saved" % (libdir, label),
+                          {"scenario": "saved then rendered", "libdir": libdir, "got": a["html"][:600], "want": b["html"][:600]})
+            return False
+    return True
+
+
 def _find_mark(case, d):
     mark = d.get("_mark")
     if mark is None:
@@ -434,6 +463,8 @@ def check_shared_content(ctx, case):
 
 
 def replay(ctx, w):
+    if "case" not in w:
+        return
     if w.get("scenario"):
         return check_shared_content(ctx, w["case"])
     check_case(ctx, w["case"])
@@ -460,6 +491,15 @@ def run(ctx):
             ctx.guard(check_shared_content, ctx, case, witness={"case": case, "scenario": "two documents from one content list"})
         ctx.case(case, nontrivial=nontrivial(case))
         ctx.state("shape_x_prefix", (case["shape"], case["lib_prefix"], case["include_version"]))
+    import shutil
+    import tempfile
+
+    scratch_dir = tempfile.mkdtemp(prefix="hv-c11-")
+    try:
+        for _ in range(ctx.budget(12, 1200)):
+            ctx.guard(check_saved_then_rendered, ctx, rng, scratch_dir, witness={"scenario": "saved then rendered"})
+    finally:
+        shutil.rmtree(scratch_dir, ignore_errors=True)
     # separate input class: a dependency nested inside another dependency's head (known finding F6)
     for _ in range(ctx.budget(60, 3000)):
         case = rand_case(rng, nested=True)
